@@ -694,7 +694,8 @@ theorem session_signature (H : Hashes) (parts : List (ℕ × ℕ × ℕ)) (sigHa
     {R : Pt} (hR : computeR H M sums sigHash = some R)
     {ss : List ℕ} (hss : List.Forall₂ (fun (p : ℕ × ℕ × ℕ) (s : ℕ) =>
         ∃ k, computeK H M (p.2.1, p.2.2) sums sigHash = some k ∧ sign H M p.1 k R sigHash root = some s) parts ss) :
-    ∃ ext, externalKey H M root = some ext ∧ ext ≠ .inf ∧ R ≠ .inf ∧ M.point ≠ .inf ∧ ∀ sSum : ℤ,
+    ∃ ext, externalKey H M root = some ext ∧ ext ≠ .inf ∧ R ≠ .inf ∧ M.point ≠ .inf ∧
+      (∃ xe r : ℤ, ext = g xe ∧ R = g r) ∧ ∀ sSum : ℤ,
       (cz sSum = cz (ss.map (fun (s : ℕ) => (s : ℤ))).sum →
         ∃ s, getSignature H M sSum R sigHash root = some (evenPoint R, s) ∧ s < N ∧
           verifySchnorr H ext sigHash (evenPoint R) s = some true) ∧
@@ -734,7 +735,7 @@ theorem session_signature (H : Hashes) (parts : List (ℕ × ℕ × ℕ)) (sigHa
   have hext'' : ext = g xe := Option.some.inj hext'
   subst hext''
   obtain ⟨hxe, hx2, hx3⟩ := parityOf_g_cases hextPar
-  refine ⟨g xe, hext, hxe, hr, by rw [hQ]; exact hq, ?_⟩
+  refine ⟨g xe, hext, hxe, hr, by rw [hQ]; exact hq, ⟨xe, r, rfl, rfl⟩, ?_⟩
   set chal : ℕ := challengeOf H (g r) (g xe) sigHash with hchal
   -- the sum of the partial signatures
   set σR : ZMod N := if rPar = extPar then 1 else -1 with hσR
